@@ -922,6 +922,10 @@ impl Api for Server {
         vout: output.vout,
         txid: output.txid,
       };
+      // Bitcoin Core accepts an outpoint listed twice in one lockunspent call
+      #[cfg(feature = "verif")]
+      state.locked.insert(output);
+      #[cfg(not(feature = "verif"))]
       assert!(state.locked.insert(output));
     }
 
